@@ -78,6 +78,14 @@ def run(tier, seed, replay):
                 far = [c["n"], c["n"] + 1, c["n"] + 1000, 2 ** 31 - 1, 2 ** 32 - 1, 2 ** 32, 2 ** 63 - 1, 2 ** 63, 2 ** 64 - 2, 2 ** 64 - 1]
                 c[key] = list(c[key]) + rng0.sample(far, rng0.randrange(1, 3))
                 rng0.shuffle(c[key])
+        # long lists (dozens of entries: repeated cycles, never-reached cycles), again without changing the meaning
+        if rng0.random() < 0.25:
+            for key in ("ints", "resets"):
+                if key in c:
+                    base = list(c[key])
+                    pad = [c["n"] + 1 + rng0.randrange(500) for _ in range(rng0.randrange(20, 45))] + [rng0.choice(base) for _ in range(12) if base]
+                    c[key] = base + pad
+                    rng0.shuffle(c[key])
     p = os.path.join(vlib.WORK, "runner_cases.ndjson")
     vlib.write_ndjson(p, cases)
     # (a) the library: RunnerConfig::run and RunExpectations::verify on every configuration
@@ -149,6 +157,45 @@ def run(tier, seed, replay):
         if diffs:
             v.violation("run:cli", "2a-emulator %s: %s" % (" ".join(args), diffs), {"args": args, "diffs": diffs, "stdout": out["stdout"][-600:], "stderr": out["stderr"]})
             break
+    # voltages on the command line are decimal literals of any length: the stored value is the correctly rounded f32 (the expected bit pattern is
+    # computed here with exact rational arithmetic); program 6 shows the comparator bits of the status register in FE
+    from fractions import Fraction
+    import struct
+
+    def f32_of(fr):
+        """correctly rounded (ties to even) f32 of a non-negative rational, as a float"""
+        if fr == 0:
+            return 0.0
+        lo, hi = 0, 0x7F7FFFFF
+        while lo < hi:                                   # largest bit pattern whose value is <= fr
+            mid = (lo + hi + 1) // 2
+            if Fraction(struct.unpack(">f", struct.pack(">I", mid))[0]) <= fr:
+                lo = mid
+            else:
+                hi = mid - 1
+        a = Fraction(struct.unpack(">f", struct.pack(">I", lo))[0])
+        b = Fraction(struct.unpack(">f", struct.pack(">I", lo + 1))[0])
+        pick = lo if (fr - a < b - fr or (fr - a == b - fr and lo % 2 == 0)) else lo + 1
+        return struct.unpack(">f", struct.pack(">I", pick))[0]
+
+    def dec(fr, digits=120):
+        n = int(fr * 10 ** digits)
+        s = str(n).rjust(digits + 1, "0")
+        return s[:-digits] + "." + s[-digits:]
+    tiny = Fraction(1, 2 ** 150)
+    lits = [tiny + Fraction(1, 10 ** 100), tiny, tiny - Fraction(1, 10 ** 100), Fraction(1, 2 ** 149), Fraction(1, 2 ** 151), Fraction(3, 2 ** 151),
+            Fraction(1, 10 ** 40), Fraction(1, 10 ** 46), Fraction(0)]
+    if 6 in files:
+        base = cli(binary, ["run", files[6], "40"])
+        for fr in lits:
+            for flag, bit in (("--ai1", 8), ("--ai2", 16), ("--temp", 16)):
+                out = cli(binary, ["run", files[6], "40", flag, dec(fr)])
+                ncli += 1
+                want = (base.get("fe", 0) | bit) if f32_of(fr) > 0.0 else base.get("fe", 0)
+                if out.get("fe") != want or out["rc"] != 0:
+                    v.violation("run:cli:voltage", "2a-emulator run ... %s %s: the status register shows %s, the correctly rounded f32 of the literal (%r) makes it %s"
+                                % (flag, dec(fr)[:60] + "...", out.get("fe"), f32_of(fr), want), {"flag": flag, "literal": dec(fr), "out": out})
+                    break
     # unreadable / unparsable program files and the verify subcommand
     for args, want in ((["run", os.path.join(d, "does-not-exist.asm"), "10"], 1), (["run", bad_file, "10"], 1),
                        (["verify", bad_file], 1), (["verify", os.path.join(d, "does-not-exist.asm")], 1), (["verify", files[1]], 0)):
